@@ -20,6 +20,8 @@ use revm_primitives::U256;
 
 pub(crate) use history::{BeneficiaryRead, BeneficiaryReadVersion, BeneficiaryValidation};
 pub(crate) use reward::{BeneficiaryMode, DeferredBeneficiaryReward};
+#[cfg(grevm_verif)]
+pub(crate) use reward::verif_from_gas;
 
 /// The beneficiary account and its block-scoped speculative history.
 ///
@@ -127,6 +129,12 @@ impl SpeculativeResult {
     /// The non-zero reward intentionally omitted from the finalized state.
     pub(crate) fn deferred_reward(&self) -> Option<DeferredBeneficiaryReward> {
         self.deferred_reward
+    }
+
+    /// Digest of the execution result and deferred reward (verification hook payload).
+    #[cfg(grevm_verif)]
+    pub(crate) fn verif_digest(&self) -> String {
+        format!("{:?}|{:?}", self.result_and_state.result, self.deferred_reward)
     }
 
     /// Consume the wrapper at the ordered-commit boundary.
